@@ -10,7 +10,7 @@ import (
 	zz "rare/pkg/zzverif"
 )
 
-var zzHarnesses = map[string]func(){"H06Open": H06Open, "H06Files": H06Files, "H05Status": H05Status}
+var zzHarnesses = map[string]func(){"H06Open": H06Open, "H06Files": H06Files, "H06Gzip": H06Gzip, "H05Status": H05Status}
 
 // ---- a ghost file system behind os.Open / (*os.File).Read,Seek,Close and gzip.NewReader ----
 // Under gosym the five library entry points are redirected to the stubs
@@ -22,7 +22,16 @@ type zzGhost struct {
 	path   string
 	exists bool
 	data   []byte
+	gz     bool // the file holds a gzip member whose payload is data
 }
+
+type zzGzHandle struct {
+	r   *gzip.Reader
+	g   *zzGhost
+	pos int
+}
+
+var zzGzHandles []*zzGzHandle
 
 type zzHandle struct {
 	f      *os.File
@@ -42,7 +51,7 @@ var (
 var zzErrNoEnt = errors.New("open: no such file")
 
 func zzReset() {
-	zzFS, zzHandles = nil, nil
+	zzFS, zzHandles, zzGzHandles = nil, nil, nil
 	if !zz.Symbolic() {
 		zzDir, _ = os.MkdirTemp("", "zzc06")
 	}
@@ -120,13 +129,37 @@ func zzFileClose(f *os.File) error {
 	return nil
 }
 
-// gzip.NewReader on something that is not gzip: consumes some bytes, then fails
+// gzip.NewReader: on a ghost gzip file a reader of its payload; on anything else it consumes some bytes, then fails
 func zzGzipNewReader(r io.Reader) (*gzip.Reader, error) {
+	if f, ok := r.(*os.File); ok {
+		if h := zzH(f); h.g.gz {
+			zr := new(gzip.Reader)
+			zzGzHandles = append(zzGzHandles, &zzGzHandle{r: zr, g: h.g})
+			return zr, nil
+		}
+	}
 	if zzGzEat > 0 {
 		r.Read(make([]byte, zzGzEat))
 	}
 	return nil, zzGzErr
 }
+
+func zzGzRead(z *gzip.Reader, p []byte) (int, error) {
+	for _, h := range zzGzHandles {
+		if h.r == z {
+			if h.pos >= len(h.g.data) {
+				return 0, io.EOF
+			}
+			n := copy(p, h.g.data[h.pos:])
+			h.pos += n
+			return n, nil
+		}
+	}
+	zz.Assert(false, "read from a gzip reader that was never created")
+	return 0, io.EOF
+}
+
+func zzGzClose(z *gzip.Reader) error { return nil }
 
 func zzDrawGzip() {
 	zzGzErr = []error{gzip.ErrHeader, io.EOF, io.ErrUnexpectedEOF}[zz.Choice(3)]
@@ -271,3 +304,38 @@ func H05Status() {
 }
 
 func zzByteSize(n uint64) string { return "n" }
+
+func zzAddGzipFile(name string, payload []byte) string {
+	p := name
+	if !zz.Symbolic() {
+		p = filepath.Join(zzDir, name)
+		f, _ := os.Create(p)
+		zw := gzip.NewWriter(f)
+		zw.Write(payload)
+		zw.Close()
+		f.Close()
+	}
+	zzFS = append(zzFS, &zzGhost{path: p, exists: true, data: payload, gz: true})
+	return p
+}
+
+// H06Gzip: with -z a gzip input is delivered decompressed - whatever its
+// name looks like - and without -z its bytes are not interpreted.
+func H06Gzip() {
+	zzReset()
+	defer zzCleanup()
+	zzDrawGzip()
+	payload := zz.Bytes(zz.Len(zzFileLen))
+	name := []string{"f0.gz", "f0.gz.1", "F0.GZ", "f0"}[zz.Choice(4)]
+	p := zzAddGzipFile(name, payload)
+	r, err := openFileToReader(p, true)
+	zz.Assert(err == nil && r != nil, "a gzip input is rejected with -z")
+	got, rerr := io.ReadAll(r)
+	zz.Assert(rerr == nil, "reading the gzip input failed")
+	zz.Assert(len(got) == len(payload), "with -z a gzip input is not delivered decompressed")
+	for i := range got {
+		zz.Assert(got[i] == payload[i], "with -z a gzip input is not delivered decompressed")
+	}
+	r.Close()
+	zz.Reached()
+}
